@@ -539,10 +539,11 @@ fn harness_op(spec: &OpSpec) -> Option<Outcome> {
                 ProcCtor::New => ProcfsHandle::new(),
                 other => {
                     // the descriptor is made by the harness with raw calls
+                    seam::hypercall(seam::HC_HARNESS, 0, 1);
                     let fd = unsafe {
                         match other {
                             ProcCtor::FromPlainOpen => {
-                                libc::open(b"/proc\0".as_ptr() as *const c_char, libc::O_PATH | libc::O_DIRECTORY | libc::O_CLOEXEC)
+                                libc::openat(libc::AT_FDCWD, b"/proc\0".as_ptr() as *const c_char, libc::O_PATH | libc::O_DIRECTORY | libc::O_CLOEXEC)
                             }
                             ProcCtor::FromOpenTree => libc::syscall(
                                 libc::SYS_open_tree,
@@ -559,6 +560,7 @@ fn harness_op(spec: &OpSpec) -> Option<Outcome> {
                             _ => crate::sys::fsopen_proc(false).unwrap_or(-1),
                         }
                     };
+                    seam::hypercall(seam::HC_HARNESS, 0, 0);
                     if fd < 0 {
                         return Some(Outcome::Err { kind: "Harness".into(), errno: crate::sys::errno(), desc: "ctor fd".into() });
                     }
